@@ -59,7 +59,38 @@ class LockMonitor:
                         return _o(self_, *a, **k)
                     setattr(cls, name, w)
 
+        # atomicity of one entry synchronisation: from the moment the sync manager starts working on an entry until it is done with it,
+        # the state lock is held at every provider call (a lock handed over in the middle lets an event application slip in between)
+        self.in_sync = 0
+        M = _lab.M
+        orig_sync = M.SyncManager.__dict__["_sync_one_entry"]
+        self.saved[(M.SyncManager, "_sync_one_entry")] = orig_sync
+
+        def sync_one(self_, *a, **k):
+            mon.in_sync += 1
+            try:
+                return orig_sync(self_, *a, **k)
+            finally:
+                mon.in_sync -= 1
+        M.SyncManager._sync_one_entry = sync_one
+        self.prov_saved = []
+        for p_ in lab.p:
+            for name in _lab.READERS + _lab.MUTATORS:
+                o = getattr(p_, name)
+                self.prov_saved.append((p_, name, o))
+
+                def pw(*a, _o=o, _n=name, **k):
+                    if mon.in_sync and not lab.user_mode and mon.entry is not None and not lab.cs.state.lock._is_owned():
+                        v = (mon.entry, "provider." + _n, "state lock not held at a provider call inside an entry synchronisation")
+                        if v not in mon.violations:
+                            mon.violations.append(v)
+                    return _o(*a, **k)
+                setattr(p_, name, pw)
+
     def detach(self):
+        for p_, name, o in getattr(self, "prov_saved", []):
+            setattr(p_, name, o)
+        self.prov_saved = []
         if self.lab.cs is not None and self.lab.cs.state.lock is not self.lock0:
             v = (self.entry or "?", "lock", "state.lock was replaced by another lock object")
             if v not in self.violations:
@@ -72,7 +103,7 @@ class LockMonitor:
         v = self.violations[0]
         return {"ok": False, "info": {"why": "shared sync state mutated without holding the state lock", "entry": v[0], "hook": v[1], "site": v[2], "all": self.violations[:6],
                                       "hist": hist},
-                "sigdata": {"entry": v[0], "site": v[2], "symptom": "unlocked-mutation"}}
+                "sigdata": {"entry": v[0], "site": v[2], "symptom": "unlocked-mutation" if not str(v[1]).startswith("provider.") else "lock-released-mid-entry"}}
 
 
 def _engine_factory(params, env=None):
